@@ -16,7 +16,9 @@ pub struct Case {
 
 pub fn gen_case(t: &mut Tape, feature_unimock: bool) -> Case {
     // (type expression, constructor expression, expression yielding a &str stored in the value or a static)
-    let shapes: [(&str, &str, &str); 6] = [
+    let shapes: [(&str, &str, &str); 8] = [
+        ("<Sel as HasConf>::C", "Conf { name: String::from(\"n7\") }", "qualified_path"),
+        ("self::inner::PConf", "inner::PConf { name: String::from(\"n8\") }", "path"),
         ("Conf", "Conf { name: String::from(\"n1\") }", "ident"),
         ("inner::PConf", "inner::PConf { name: String::from(\"n2\") }", "path"),
         ("G<i32>", "G { name: String::from(\"n3\"), v: 5i32 }", "generic_instantiation"),
@@ -101,7 +103,7 @@ pub fn gen_case(t: &mut Tape, feature_unimock: bool) -> Case {
 
     let mut src = String::from(
         "#![allow(warnings)]\nuse crate::rt;\nuse ::core::marker::PhantomData;\n#[derive(Debug, Clone, PartialEq)] pub struct N(pub i32);\n#[derive(Debug, Clone, PartialEq)] pub struct S { pub a: i32 }\n\
-         pub struct Conf { pub name: String }\npub mod inner { pub struct PConf { pub name: String } }\npub struct G<T> { pub name: String, pub v: T }\npub struct Unrelated;\n",
+         pub struct Conf { pub name: String }\npub mod inner { pub struct PConf { pub name: String } }\npub struct G<T> { pub name: String, pub v: T }\npub struct Unrelated;\npub struct Sel;\npub trait HasConf { type C; }\nimpl HasConf for Sel { type C = Conf; }\n",
     );
     src.push_str(&format!("/*GEN*/ #[::entrait::entrait({attr})]\n{fn_src}\n"));
     src.push_str(&format!("pub struct App {{ pub pad: u64, pub c: {ty} }}\n"));
@@ -144,6 +146,7 @@ pub fn gen_case(t: &mut Tape, feature_unimock: bool) -> Case {
         "path" => "shape:path",
         "generic_instantiation" => "shape:generic_instantiation",
         "tuple" => "shape:tuple",
+        "qualified_path" => "shape:qualified_path",
         _ => "shape:array",
     }];
     if named_lt {
